@@ -1,7 +1,7 @@
 (* C07: computed witnesses - inside each recorded class the faithful model differs from the specification *)
 From Coq Require Import String Ascii.
 From Coq Require Import List Arith Bool.
-Require Import TT.Model.Str TT.Model.C07TypeParse TT.Model.Harvest TT.Model.C07Worklist TT.Model.C07Reach.
+Require Import TT.Model.Str TT.Model.C07TypeParse TT.Model.C07Harvest TT.Model.C07Worklist TT.Model.C07Reach.
 Require Import TT.Spec.C07Spec TT.Spec.C07Known.
 Import ListNotations.
 
@@ -13,8 +13,15 @@ Ltac witness := split; [vm_compute; reflexivity|]; split; [vm_compute; reflexivi
   eexists; eexists; split; [vm_compute; reflexivity|]; split; [vm_compute; reflexivity|]; vm_compute; reflexivity.
 Lemma result_map_refuted : kf_c07_result_map w_result_map = true /\ refutes w_result_map. Proof. witness. Qed.
 Lemma tuple_generic_refuted : kf_c07_tuple_generic w_tuple_generic = true /\ refutes w_tuple_generic. Proof. witness. Qed.
-Lemma result_alias_refuted : kf_c07_result_alias w_result_alias = true /\ refutes w_result_alias. Proof. witness. Qed.
-Lemma event_nested_refuted : kf_c07_event_nested_opt w_event_nested = Some true /\ refutes w_event_nested. Proof. witness. Qed.
+(* the witnesses of the two repaired defects now satisfy the property *)
+Definition repaired (p : project) : Prop :=
+  in_domain p = true /\
+  exists d l, C07Reach.declared o_default p = Some d /\
+              reach_from_opt p (command_roots p ++ event_roots p) = Some l /\ same_set_b d l = true /\ l <> [].
+Ltac positive := split; [vm_compute; reflexivity|];
+  eexists; eexists; split; [vm_compute; reflexivity|]; split; [vm_compute; reflexivity|]; split; [vm_compute; reflexivity|discriminate].
+Lemma result_alias_repaired : repaired w_result_alias. Proof. positive. Qed.
+Lemma event_nested_repaired : repaired w_event_nested. Proof. positive. Qed.
 Lemma field_result_refuted : kf_c07_field_result w_field_result = true /\ refutes w_field_result. Proof. witness. Qed.
 Lemma inline_mod_refuted : kf_c07_inline_mod w_inline_mod = true /\ refutes w_inline_mod. Proof. witness. Qed.
 Lemma odd_name_refuted : kf_c07_odd_name w_odd_name = true /\ refutes w_odd_name. Proof. witness. Qed.
